@@ -13,6 +13,8 @@ mode "decompile" (default)
          "C <class>"                       DvClass.get_source() of the whole class
          "R <class>"                       DvClass.get_source() after a second DvClass.process() on the
                                             same object (order "C2")
+         "F <class> <method><descriptor>"  source of the method after an ABORTED process() on the same DvMethod
+                                            (phase F: seeded injected exception / small recursion limit, then retry)
          "A <class> <method><descriptor>"  JSON AST of one method (fresh DvMethod, process(doAST=True))
          "X <class>"                       JSON AST of one class (fresh DvClass, process(doAST=True))
   orders: any string over M C A X = phases run one after the other over all requested classes
@@ -176,6 +178,92 @@ def decompile_mode(spec, out):
                 except Exception as e:  # noqa
                     put(key, "EXC:" + type(e).__name__)
 
+    FAULTS = ["ast.visit_ins", "ast.get_ast.pre", "src.visit_ins", "split_variables.post", "identify_structures.post",
+              "place_declarations.post", "reclimit.ast", "reclimit.src"]
+
+    class Injected(Exception):
+        pass
+
+    def do_fault_retry(order):
+        """fault then retry: process() of a fresh DvMethod is ABORTED by an exception raised at a seeded point
+        (monkeypatch inside this process only), the exception is swallowed as DvClass.process() swallows it,
+        then process() is called again on the SAME object; its source text is reported under key
+        "F <class> <method>" and must equal the text a fresh object gives (keys M/K of any configuration)"""
+        import random
+        from androguard.decompiler import dast, writer
+        stats = out.setdefault("faults", {})
+        for cname in order:
+            for m in byname[cname].get_methods():
+                key = mkey("F", cname, m)
+                rng = random.Random("%s/%s" % (spec.get("fault_seed", 0), key))
+                kind = rng.choice(FAULTS)
+                nth = rng.randrange(1, 6)
+                ctor = m.get_name() in ("<init>", "<clinit>")
+                if ctor and kind.startswith("ast."):
+                    # NOT judged: on the unchanged tree JSONWriter.get_ast removes 'constructor' from the access
+                    # list of the DvMethod it writes (in place), so a later source request on the SAME object
+                    # prints `void <init>` with or without a fault; only source-mode faults for constructors
+                    kind = "src.visit_ins"
+                count = [0]
+                undo = []
+
+                def patch(obj, name, fn):
+                    orig = getattr(obj, name)
+                    setattr(obj, name, fn(orig))
+                    undo.append((obj, name, orig))
+
+                def nth_call(orig):
+                    def f(*a, **k):
+                        count[0] += 1
+                        if count[0] >= nth:
+                            raise Injected(kind)
+                        return orig(*a, **k)
+                    return f
+
+                def after(orig):
+                    def f(*a, **k):
+                        orig(*a, **k)
+                        raise Injected(kind)
+                    return f
+
+                def before(orig):
+                    def f(*a, **k):
+                        raise Injected(kind)
+                    return f
+                do_ast = (kind.startswith("ast.") or kind == "reclimit.ast" or (
+                    kind.endswith(".post") and rng.random() < .5)) and not (
+                    ctor and kind in ("reclimit.ast", "place_declarations.post", "identify_structures.post"))
+                fired = "no"
+                try:
+                    z = decompile.DvMethod(dx.get_method(m))
+                    old_limit = sys.getrecursionlimit()
+                    try:
+                        if kind == "ast.visit_ins":
+                            patch(dast.JSONWriter, "visit_ins", nth_call)
+                        elif kind == "ast.get_ast.pre":
+                            patch(dast.JSONWriter, "get_ast", before)
+                        elif kind == "src.visit_ins":
+                            patch(writer.Writer, "visit_ins", nth_call)
+                        elif kind.endswith(".post"):
+                            patch(decompile, kind[:-5], after)
+                        else:                     # a small recursion limit: RecursionError somewhere inside
+                            import inspect
+                            sys.setrecursionlimit(len(inspect.stack()) + 12 + 6 * nth)
+                        try:
+                            z.process(doAST=do_ast)
+                        except Exception as e:    # noqa: what DvClass.process() does with it
+                            fired = type(e).__name__
+                    finally:
+                        sys.setrecursionlimit(old_limit)
+                        for obj, name, orig in undo:
+                            setattr(obj, name, orig)
+                    z.process()
+                    put(key, z.get_source())
+                except Exception as e:  # noqa
+                    put(key, "EXC:" + type(e).__name__)
+                k2 = kind + ("" if fired != "no" else ":not-fired")
+                stats[k2] = stats.get(k2, 0) + 1
+
     def do_ast_classes(order):
         # what DecompilerDAD.get_ast_class does: a fresh DvClass processed in AST mode
         for cname in order:
@@ -191,7 +279,7 @@ def decompile_mode(spec, out):
         do_methods(names[::-1], rev=True)
     elif o == "C2":
         do_classes(names, twice=True)
-    elif o and all(ch in "MCAXax" for ch in o):
+    elif o and all(ch in "MCAXaxF" for ch in o):
         # phases, each over all requested classes: M methods alone (source), C whole classes (source),
         # A methods alone in AST mode, X whole classes in AST mode; every request uses a fresh DvMethod/DvClass
         # a / x: the AST phases in reverse order (another method / class is the first one to be processed)
@@ -201,7 +289,8 @@ def decompile_mode(spec, out):
             elif ch == "x":
                 do_ast_classes(names[::-1])
             else:
-                {"M": do_methods, "C": do_classes, "A": do_ast_methods, "X": do_ast_classes}[ch](names)
+                {"M": do_methods, "C": do_classes, "A": do_ast_methods, "X": do_ast_classes,
+                 "F": do_fault_retry}[ch](names)
     else:
         raise ValueError(o)
 
